@@ -447,3 +447,1230 @@ Proof.
   rewrite Heq in S1. rewrite S1 in S2. inversion S2; subst.
   split; [|reflexivity]. apply app_inv_tail in Heq. exact Heq.
 Qed.
+
+(* structure of a successful step, without well-formedness *)
+Lemma step_struct maxlen fault bs off t rest off' :
+  decode_step maxlen fault bs off = STok t rest off' ->
+  exists piece, bs = piece ++ rest /\ piece <> [] /\ off' = off + lenN piece.
+Proof.
+  intros H. destruct bs as [|k r].
+  - rewrite step_nil in H. destruct fault; discriminate.
+  - destruct (fixed_kind k) as [[n mk]|] eqn:Ef.
+    + rewrite (step_fixed _ _ _ _ _ _ _ Ef) in H.
+      destruct (takeN n r) as [[img r']|] eqn:Et; [|discriminate].
+      apply takeN_some in Et. destruct Et as [Hsplit Hl].
+      injection H as E1 E2 E3. subst t rest off' r.
+      exists (k :: img). split; [reflexivity|]. split; [discriminate|].
+      rewrite lenN_cons. lia.
+    + destruct (is_str_kind k || is_bytes_kind k) eqn:Esb.
+      * rewrite step_var in H by assumption.
+        destruct (read_len maxlen fault (is_str_kind k) r (off + 1)) as [len r' o|e o] eqn:El; [|discriminate].
+        apply read_len_struct in El. destruct El as [lf [Hsplit [Ho Hlf]]].
+        destruct (takeN len r') as [[pl r'']|] eqn:Et; [|discriminate].
+        apply takeN_some in Et. destruct Et as [Hsplit' Hl].
+        injection H as E1 E2 E3. subst t rest off' r r' o.
+        exists (k :: lf ++ pl). split; [cbn [app]; rewrite <- app_assoc; reflexivity|].
+        split; [discriminate|]. rewrite lenN_cons, lenN_app. lia.
+      * destruct (is_valueless_kind k) eqn:Ev.
+        { rewrite step_valueless in H by exact Ev. injection H as E1 E2 E3. subst t rest off'.
+          exists [k]. split; [reflexivity|]. split; [discriminate|]. reflexivity. }
+        { rewrite step_bad in H by assumption. discriminate. }
+Qed.
+
+Lemma step_shrinks maxlen fault bs off t rest off' :
+  decode_step maxlen fault bs off = STok t rest off' -> (length rest < length bs)%nat.
+Proof.
+  intros H. apply step_struct in H. destruct H as [piece [Hs [Hne _]]]. subst bs.
+  rewrite app_length. destruct piece as [|x p]; [congruence|]. cbn [length]. lia.
+Qed.
+
+Lemma step_end_inv maxlen fault bs off :
+  decode_step maxlen fault bs off = SEnd -> bs = [] /\ fault = false.
+Proof.
+  intros H. destruct bs as [|k r].
+  - rewrite step_nil in H. destruct fault; [discriminate|]. split; reflexivity.
+  - exfalso. destruct (fixed_kind k) as [[n mk]|] eqn:Ef.
+    + rewrite (step_fixed _ _ _ _ _ _ _ Ef) in H.
+      destruct (takeN n r) as [[img r']|]; discriminate.
+    + destruct (is_str_kind k || is_bytes_kind k) eqn:Esb.
+      * rewrite step_var in H by assumption.
+        destruct (read_len maxlen fault (is_str_kind k) r (off + 1)) as [len r' o|e o]; [|discriminate].
+        destruct (takeN len r') as [[pl r'']|]; discriminate.
+      * destruct (is_valueless_kind k) eqn:Ev.
+        { rewrite step_valueless in H by exact Ev. discriminate. }
+        { rewrite step_bad in H by assumption. discriminate. }
+Qed.
+
+Theorem step_err_offset maxlen fault bs off e o :
+  decode_step maxlen fault bs off = SErr e o -> off <= o <= off + lenN bs.
+Proof.
+  intros H. destruct bs as [|k r].
+  - rewrite step_nil in H. destruct fault; [|discriminate].
+    injection H as E1 E2. subst. rewrite lenN_nil. lia.
+  - rewrite lenN_cons. destruct (fixed_kind k) as [[n mk]|] eqn:Ef.
+    + rewrite (step_fixed _ _ _ _ _ _ _ Ef) in H.
+      destruct (takeN n r) as [[img r']|]; [discriminate|].
+      injection H as E1 E2. subst. lia.
+    + destruct (is_str_kind k || is_bytes_kind k) eqn:Esb.
+      * rewrite step_var in H by assumption.
+        destruct (read_len maxlen fault (is_str_kind k) r (off + 1)) as [len r' o1|e1 o1] eqn:El.
+        { apply read_len_struct in El. destruct El as [lf [Hsplit [Ho Hlf]]].
+          destruct (takeN len r') as [[pl r'']|]; [discriminate|].
+          injection H as E1 E2. subst. rewrite lenN_app. lia. }
+        { apply read_len_err_offset in El. injection H as E1 E2. subst. lia. }
+      * destruct (is_valueless_kind k) eqn:Ev.
+        { rewrite step_valueless in H by exact Ev. discriminate. }
+        { rewrite step_bad in H by assumption. injection H as E1 E2. subst. lia. }
+Qed.
+
+(* ------------------------------------------------------------------ *)
+(* fuel                                                                *)
+(* ------------------------------------------------------------------ *)
+
+Lemma decode_all_fuel maxlen fault f1 : forall f2 bs off,
+  (length bs < f1)%nat -> (length bs < f2)%nat ->
+  decode_all f1 maxlen fault bs off = decode_all f2 maxlen fault bs off.
+Proof.
+  induction f1 as [|f1 IH]; intros f2 bs off H1 H2; [lia|].
+  destruct f2 as [|f2]; [lia|]. cbn [decode_all].
+  destruct (decode_step maxlen fault bs off) as [|t r o|e o] eqn:Es; try reflexivity.
+  apply step_shrinks in Es. rewrite (IH f2 r o) by lia. reflexivity.
+Qed.
+
+Lemma decode_all_no_fuel maxlen fault f : forall bs off,
+  (length bs < f)%nat -> snd (decode_all f maxlen fault bs off) <> DOutOfFuel.
+Proof.
+  induction f as [|f IH]; intros bs off Hf; [lia|]. cbn [decode_all].
+  destruct (decode_step maxlen fault bs off) as [|t r o|e o] eqn:Es; cbn [snd]; try discriminate.
+  apply step_shrinks in Es. specialize (IH r o).
+  destruct (decode_all f maxlen fault r o) as [ts d]. cbn [snd] in *. apply IH. lia.
+Qed.
+
+Theorem decode_total maxlen fault bs off :
+  snd (decode_all (S (length bs)) maxlen fault bs off) <> DOutOfFuel.
+Proof. apply decode_all_no_fuel. lia. Qed.
+
+(* ------------------------------------------------------------------ *)
+(* C02: the encoder's output is accepted; round trip                   *)
+(* ------------------------------------------------------------------ *)
+
+Lemma acc_fixed' maxlen k n mk img v : fixed_kind k = Some (n, mk) -> lenN img = n -> wf_bytes img ->
+  v = mk (le_val img) -> accepts maxlen (T k v) (k :: img).
+Proof. intros Hf Hl Hwf ->. eapply acc_fixed; eassumption. Qed.
+
+Definition ikind (w : width) : N :=
+  match w with WNat => KInt | W8 => KInt8 | W16 => KInt16 | W32 => KInt32 | W64 => KInt64 end.
+Definition ukind (w : width) : N :=
+  match w with WNat => KUint | W8 => KUint8 | W16 => KUint16 | W32 => KUint32 | W64 => KUint64 end.
+
+Lemma fixed_ikind w :
+  fixed_kind (ikind w) = Some (N.of_nat (wbytes w), fun n => VI w (untwos (wbytes w) n)).
+Proof. destruct w; reflexivity. Qed.
+
+Lemma fixed_ukind w : fixed_kind (ukind w) = Some (N.of_nat (wbytes w), fun n => VU w n).
+Proof. destruct w; reflexivity. Qed.
+
+Lemma shape_VI k w z : kind_shape k (VI w z) = true -> k = ikind w.
+Proof. destruct w; cbn [kind_shape ikind]; intros H; apply N.eqb_eq in H; exact H. Qed.
+
+Lemma shape_VU k w n : kind_shape k (VU w n) = true -> k = ukind w.
+Proof. destruct w; cbn [kind_shape ukind]; intros H; apply N.eqb_eq in H; exact H. Qed.
+
+Lemma wbytes_pos w : (0 < wbytes w)%nat.
+Proof. destruct w; cbn [wbytes]; lia. Qed.
+
+Lemma uint_roundtrip w n : n < 2 ^ (8 * N.of_nat w) -> le_val (le_bytes w n) = n.
+Proof. intros H. rewrite le_val_le_bytes. apply N.mod_small. exact H. Qed.
+
+Lemma int_roundtrip w z : in_irange w z = true ->
+  untwos (wbytes w) (le_val (le_bytes (wbytes w) (twos (wbytes w) z))) = z.
+Proof.
+  intros H. pose proof (wbytes_pos w) as Hw.
+  rewrite uint_roundtrip by (apply twos_bound; exact Hw).
+  apply untwos_twos; [exact Hw|].
+  unfold in_irange in H. apply andb_true_iff in H. destruct H as [H1 H2].
+  apply Z.leb_le in H1. apply Z.ltb_lt in H2. split; assumption.
+Qed.
+
+Lemma len_prefix_field maxlen l : l <= maxlen -> l < 2 ^ 56 -> len_field maxlen l (len_prefix l).
+Proof.
+  intros Hm Hl. unfold len_prefix. destruct (l <? 128) eqn:E.
+  - apply lf_short; lia.
+  - cbv zeta. unfold compl8.
+    pose proof (put_uvarint_len l Hl) as Hlen.
+    apply lf_long.
+    + unfold lenN. lia.
+    + reflexivity.
+    + apply put_uvarint_wf.
+    + apply uv_parse_put. exact Hl.
+    + exact Hm.
+Qed.
+
+Theorem encode_accepts maxlen t : wf_enc maxlen t -> accepts maxlen t (encode_token t).
+Proof.
+  destruct t as [k v]. unfold wf_enc, wf_token, encode_token. cbn [kind val].
+  intros [Hwf Hlen]. apply andb_true_iff in Hwf. destruct Hwf as [Hshape Hval].
+  destruct v as [|b|w z|w n|n|n|n|s|s]; cbn [enc_val].
+  - apply acc_valueless. exact Hshape.
+  - cbn [kind_shape] in Hshape. apply N.eqb_eq in Hshape. subst k.
+    apply (acc_fixed' maxlen KBool 1 (fun n => VBool (0 <? n))).
+    + reflexivity.
+    + reflexivity.
+    + constructor; [|constructor]. unfold wf_byte. destruct b; lia.
+    + destruct b; reflexivity.
+  - apply shape_VI in Hshape. subst k.
+    apply (acc_fixed' maxlen _ _ _ _ _ (fixed_ikind w)).
+    + apply le_bytes_lenN.
+    + apply le_bytes_wf.
+    + cbv beta. rewrite int_roundtrip by exact Hval. reflexivity.
+  - apply shape_VU in Hshape. subst k.
+    apply (acc_fixed' maxlen _ _ _ _ _ (fixed_ukind w)).
+    + apply le_bytes_lenN.
+    + apply le_bytes_wf.
+    + cbv beta. rewrite uint_roundtrip; [reflexivity|].
+      cbn [wf_val] in Hval. unfold in_urange in Hval. lia.
+  - cbn [kind_shape] in Hshape. apply N.eqb_eq in Hshape. subst k.
+    apply (acc_fixed' maxlen KPointer 8 (fun n => VPtr n)).
+    + reflexivity.
+    + apply (le_bytes_lenN 8).
+    + apply le_bytes_wf.
+    + cbv beta. rewrite uint_roundtrip; [reflexivity|].
+      cbn [wf_val] in Hval. apply N.ltb_lt in Hval. exact Hval.
+  - cbn [kind_shape] in Hshape. apply N.eqb_eq in Hshape. subst k.
+    apply (acc_fixed' maxlen KFloat32 4 (fun n => VF32 n)).
+    + reflexivity.
+    + apply (le_bytes_lenN 4).
+    + apply le_bytes_wf.
+    + cbv beta. rewrite uint_roundtrip; [reflexivity|].
+      cbn [wf_val] in Hval. apply N.ltb_lt in Hval. exact Hval.
+  - cbn [kind_shape] in Hshape. apply N.eqb_eq in Hshape. subst k.
+    apply (acc_fixed' maxlen KFloat64 8 (fun n => VF64 n)).
+    + reflexivity.
+    + apply (le_bytes_lenN 8).
+    + apply le_bytes_wf.
+    + cbv beta. rewrite uint_roundtrip; [reflexivity|].
+      cbn [wf_val] in Hval. apply N.ltb_lt in Hval. exact Hval.
+  - destruct Hlen as [Hm Hl].
+    apply (acc_str maxlen k _ (lenN s) s); [exact Hshape | | reflexivity].
+    apply len_prefix_field; assumption.
+  - destruct Hlen as [Hm Hl].
+    apply (acc_bytes maxlen k _ (lenN s) s); [exact Hshape | | reflexivity].
+    apply len_prefix_field; assumption.
+Qed.
+
+Theorem step_exact maxlen fault t rest off : wf_enc maxlen t ->
+  decode_step maxlen fault (encode_token t ++ rest) off = STok t rest (off + lenN (encode_token t)).
+Proof. intros H. apply step_complete. apply encode_accepts. exact H. Qed.
+
+Lemma encode_cons t ts : encode (t :: ts) = encode_token t ++ encode ts.
+Proof. reflexivity. Qed.
+
+Lemma encode_token_length t : (1 <= length (encode_token t))%nat.
+Proof. unfold encode_token. cbn [length]. lia. Qed.
+
+Lemma decode_all_S f maxlen fault bs off :
+  decode_all (S f) maxlen fault bs off =
+  match decode_step maxlen fault bs off with
+  | SEnd => ([], Done)
+  | SErr e o => ([], Fail e o)
+  | STok t r o => let '(ts, e) := decode_all f maxlen fault r o in (t :: ts, e)
+  end.
+Proof. reflexivity. Qed.
+
+(* decoding a well-formed encoded prefix, then whatever follows *)
+Lemma decode_all_app maxlen fault ts : Forall (wf_enc maxlen) ts -> forall f tail off,
+  (length (encode ts ++ tail) < f)%nat ->
+  decode_all f maxlen fault (encode ts ++ tail) off =
+  let '(ts', r) := decode_all (S (length tail)) maxlen fault tail (off + lenN (encode ts)) in
+  (ts ++ ts', r).
+Proof.
+  intros Hts. induction Hts as [|t ts Ht Hts IH]; intros f tail off Hf.
+  - cbn [encode flat_map app] in *. rewrite lenN_nil, N.add_0_r.
+    rewrite (decode_all_fuel maxlen fault f (S (length tail)) tail off) by lia.
+    destruct (decode_all (S (length tail)) maxlen fault tail off) as [ts' r]. reflexivity.
+  - rewrite encode_cons in *. rewrite <- app_assoc in *.
+    destruct f as [|f]; [lia|]. rewrite (decode_all_S f).
+    rewrite (step_exact maxlen fault t (encode ts ++ tail) off Ht).
+    pose proof (encode_token_length t) as Hlt.
+    rewrite app_length in Hf.
+    rewrite (IH f tail (off + lenN (encode_token t))) by lia.
+    rewrite lenN_app, N.add_assoc.
+    destruct (decode_all (S (length tail)) maxlen fault tail (off + lenN (encode_token t) + lenN (encode ts))) as [ts' r].
+    reflexivity.
+Qed.
+
+Theorem decode_encode maxlen ts : Forall (wf_enc maxlen) ts -> decode maxlen (encode ts) = (ts, Done).
+Proof.
+  intros Hts. unfold decode.
+  pose proof (decode_all_app maxlen false ts Hts (S (length (encode ts))) [] 0) as H.
+  rewrite app_nil_r in H. rewrite H by lia.
+  cbn [length decode_all]. rewrite step_nil. rewrite app_nil_r. reflexivity.
+Qed.
+
+Lemma val_len_correct v : val_len v = lenN (enc_val v).
+Proof.
+  destruct v as [|b|w z|w n|n|n|n|s|s]; cbn [val_len enc_val];
+    try reflexivity; try (rewrite le_bytes_lenN; reflexivity).
+  - cbv zeta. rewrite lenN_app. unfold len_prefix.
+    destruct (lenN s <? 128); [reflexivity|]. cbv zeta. rewrite lenN_cons. reflexivity.
+  - cbv zeta. rewrite lenN_app. unfold len_prefix.
+    destruct (lenN s <? 128); [reflexivity|]. cbv zeta. rewrite lenN_cons. reflexivity.
+Qed.
+
+Lemma encoded_len_fold ts : forall a,
+  fold_left (fun acc t => acc + 1 + val_len (val t)) ts a = a + lenN (encode ts).
+Proof.
+  induction ts as [|t ts IH]; intros a.
+  - cbn [fold_left encode flat_map]. rewrite lenN_nil. lia.
+  - cbn [fold_left]. rewrite IH, encode_cons, lenN_app. unfold encode_token.
+    rewrite lenN_cons, val_len_correct. lia.
+Qed.
+
+Theorem encoded_len_correct ts : encoded_len ts = lenN (encode ts).
+Proof. unfold encoded_len. rewrite encoded_len_fold. lia. Qed.
+
+Theorem writes_concat t : concat (encode_writes t) = encode_token t.
+Proof.
+  destruct t as [k v]. unfold encode_writes, encode_token. cbn [kind val concat app].
+  f_equal.
+  destruct v as [|b|w z|w n|n|n|n|s|s]; cbn [val_writes enc_val concat]; try (rewrite app_nil_r; reflexivity).
+  - reflexivity.
+  - cbv zeta. unfold len_prefix. destruct (lenN s <? 128); cbv zeta; cbn [concat app];
+      rewrite app_nil_r; reflexivity.
+  - cbv zeta. unfold len_prefix. destruct (lenN s <? 128); cbv zeta; cbn [concat app];
+      rewrite app_nil_r; reflexivity.
+Qed.
+
+Theorem stream_writes_concat ts : concat (stream_writes ts) = encode ts.
+Proof.
+  induction ts as [|t ts IH].
+  - reflexivity.
+  - unfold stream_writes in *. cbn [flat_map]. rewrite concat_app, IH, writes_concat. reflexivity.
+Qed.
+
+(* ------------------------------------------------------------------ *)
+(* C03: wire layout                                                    *)
+(* ------------------------------------------------------------------ *)
+
+Lemma len_prefix_prefix_of l : l < 2 ^ 64 -> prefix_of l (len_prefix l).
+Proof.
+  intros Hl. unfold len_prefix. destruct (l <? 128) eqn:E.
+  - apply pf_short. lia.
+  - cbv zeta. unfold compl8. apply pf_long; [lia|]. apply put_uvarint_spec. exact Hl.
+Qed.
+
+Theorem encode_layout t : wf_token t = true ->
+  (match val t with VStr s | VBytes s => lenN s < 2 ^ 64 | _ => True end) ->
+  layout_token t (encode_token t).
+Proof.
+  destruct t as [k v]. intros _ Hl. cbn [val] in Hl.
+  unfold layout_token, encode_token. cbn [kind val].
+  exists (enc_val v). split; [reflexivity|].
+  destruct v as [|b|w z|w n|n|n|n|s|s]; cbn [enc_val].
+  - apply lv_none.
+  - apply lv_bool.
+  - apply lv_int. apply (le_bytes_image (wbytes w) (twos (wbytes w) z)).
+  - apply lv_uint. apply le_bytes_image.
+  - apply lv_ptr. apply le_bytes_image.
+  - apply lv_f32. apply le_bytes_image.
+  - apply lv_f64. apply le_bytes_image.
+  - apply lv_str. apply len_prefix_prefix_of. exact Hl.
+  - apply lv_bytes. apply len_prefix_prefix_of. exact Hl.
+Qed.
+
+Theorem encode_layout_stream ts :
+  Forall (fun t => wf_token t = true /\
+                   match val t with VStr s | VBytes s => lenN s < 2 ^ 64 | _ => True end) ts ->
+  layout_stream ts (encode ts).
+Proof.
+  intros H. induction H as [|t ts [Hw Hl] Hts IH].
+  - apply ls_nil.
+  - rewrite encode_cons. apply ls_cons; [apply encode_layout; assumption | exact IH].
+Qed.
+
+Lemma layout_val_unique v b1 b2 : layout_val v b1 -> layout_val v b2 -> b1 = b2.
+Proof.
+  intros H1 H2.
+  destruct H1 as [|b|w z img H1|w n img H1|n img H1|n img H1|n img H1|s p H1|s p H1];
+    inversion H2 as [|b'|w' z' img' H2'|w' n' img' H2'|n' img' H2'|n' img' H2'|n' img' H2'|s' p' H2'|s' p' H2']; subst;
+    try reflexivity;
+    try (eapply le_image_unique; eassumption).
+  - f_equal. eapply prefix_of_unique; eassumption.
+  - f_equal. eapply prefix_of_unique; eassumption.
+Qed.
+
+Theorem layout_token_unique t b1 b2 : layout_token t b1 -> layout_token t b2 -> b1 = b2.
+Proof.
+  intros [i1 [E1 H1]] [i2 [E2 H2]]. subst. f_equal. eapply layout_val_unique; eassumption.
+Qed.
+
+(* ------------------------------------------------------------------ *)
+(* C04: exactness of the whole decode                                  *)
+(* ------------------------------------------------------------------ *)
+
+Lemma decode_exact_gen maxlen fault f : forall bs off ts r,
+  wf_bytes bs -> (length bs < f)%nat -> decode_all f maxlen fault bs off = (ts, r) ->
+  exists pieces rest, bs = concat pieces ++ rest /\ Forall2 (accepts maxlen) ts pieces /\
+    ((r = Done /\ rest = [] /\ fault = false) \/
+     (exists e o, r = Fail e o /\
+        decode_step maxlen fault rest (off + lenN (concat pieces)) = SErr e o)).
+Proof.
+  induction f as [|f IH]; intros bs off ts r Hwf Hf H; [lia|].
+  rewrite decode_all_S in H.
+  destruct (decode_step maxlen fault bs off) as [|t r1 o1|e o] eqn:Es.
+  - apply step_end_inv in Es. destruct Es as [Hbs Hfault].
+    injection H as E1 E2. subst ts r bs.
+    exists [], []. split; [reflexivity|]. split; [constructor|]. left. auto.
+  - pose proof (step_shrinks _ _ _ _ _ _ _ Es) as Hsh.
+    apply step_sound in Es; [|exact Hwf]. destruct Es as [piece [Hsplit [Ho Hacc]]].
+    destruct (decode_all f maxlen fault r1 o1) as [ts1 d1] eqn:Ed.
+    injection H as E1 E2. subst ts r.
+    assert (Hwf1 : wf_bytes r1) by (rewrite Hsplit in Hwf; apply wf_bytes_app in Hwf; tauto).
+    destruct (IH r1 o1 ts1 d1 Hwf1 ltac:(lia) Ed) as [pieces [rest [Hcat [Hall Hend]]]].
+    exists (piece :: pieces), rest. split.
+    + cbn [concat]. rewrite <- app_assoc, <- Hcat. exact Hsplit.
+    + split; [constructor; assumption|].
+      destruct Hend as [Hdone | [e [o [Hr Hstep]]]]; [left; exact Hdone|].
+      right. exists e, o. split; [exact Hr|].
+      cbn [concat]. rewrite lenN_app, N.add_assoc, <- Ho. exact Hstep.
+  - injection H as E1 E2. subst ts r.
+    exists [], bs. split; [reflexivity|]. split; [constructor|].
+    right. exists e, o. split; [reflexivity|].
+    cbn [concat]. rewrite lenN_nil, N.add_0_r. exact Es.
+Qed.
+
+Theorem decode_exact maxlen fault bs off ts r : wf_bytes bs ->
+  decode_all (S (length bs)) maxlen fault bs off = (ts, r) ->
+  exists pieces rest, bs = concat pieces ++ rest /\ Forall2 (accepts maxlen) ts pieces /\
+    ((r = Done /\ rest = [] /\ fault = false) \/
+     (exists e o, r = Fail e o /\
+        decode_step maxlen fault rest (off + lenN (concat pieces)) = SErr e o)).
+Proof. intros Hwf H. eapply decode_exact_gen; [exact Hwf | | exact H]. lia. Qed.
+
+(* ------------------------------------------------------------------ *)
+(* C04: truncation                                                     *)
+(* ------------------------------------------------------------------ *)
+
+Lemma read_len_truncated maxlen fault strk len lf pl (m : nat) off :
+  len_field maxlen len lf -> lenN pl = len -> (m < length (lf ++ pl))%nat ->
+  (exists o, read_len maxlen fault strk (firstn m (lf ++ pl)) off = LenErr (end_err fault) o) \/
+  (exists pl' o, read_len maxlen fault strk (firstn m (lf ++ pl)) off = LenOk len pl' o /\ lenN pl' < len).
+Proof.
+  intros Hlf Hpl Hm. destruct Hlf as [b Hb Hmax | l u len Hl Hu Hwf Hp Hmax].
+  - cbn [app] in *. destruct m as [|m]; cbn [firstn].
+    + left. exists off. apply read_len_nil.
+    + right. rewrite read_len_short by exact Hb.
+      assert (E : (maxlen <? b) = false) by lia. rewrite E.
+      exists (firstn m pl), (off + 1). split; [reflexivity|].
+      cbn [length] in Hm. rewrite lenN_firstn by lia. unfold lenN in Hpl. lia.
+  - cbn [app] in *. destruct m as [|m]; cbn [firstn].
+    + left. exists off. apply read_len_nil.
+    + rewrite read_len_long by lia.
+      assert (Ec : compl8 (255 - l) = l) by (unfold compl8; lia). rewrite Ec.
+      assert (E8 : (8 <? l) = false) by lia. rewrite E8.
+      cbn [length] in Hm. rewrite app_length in Hm.
+      destruct (Nat.ltb m (length u)) eqn:Emu.
+      * apply Nat.ltb_lt in Emu. left.
+        rewrite firstn_app_short by lia.
+        rewrite takeN_short; [eexists; reflexivity|].
+        rewrite lenN_firstn by lia. unfold lenN in Hu. lia.
+      * apply Nat.ltb_ge in Emu. right.
+        rewrite firstn_app_long by lia.
+        rewrite (takeN_app' l u _ Hu).
+        assert (Hlen : (length u <= 8)%nat) by (unfold lenN in Hu; lia).
+        rewrite (read_uvarint_parse u len Hwf Hlen Hp).
+        assert (E : (maxlen <? len) = false) by lia. rewrite E.
+        eexists. eexists. split; [reflexivity|].
+        rewrite lenN_firstn by lia. unfold lenN in Hpl. lia.
+Qed.
+
+Theorem step_truncated maxlen fault t piece (n : nat) off :
+  accepts maxlen t piece -> (0 < n < length piece)%nat ->
+  exists o, decode_step maxlen fault (firstn n piece) off = SErr (end_err fault) o.
+Proof.
+  intros H Hn.
+  destruct H as [k Hk | k n0 mk img Hf Hl Hwf | k lf len pl Hk Hlf Hpl | k lf len pl Hk Hlf Hpl].
+  - cbn [length] in Hn. lia.
+  - destruct n as [|m]; [lia|]. cbn [firstn length] in *.
+    rewrite (step_fixed _ _ _ _ _ _ _ Hf).
+    rewrite takeN_short; [eexists; reflexivity|].
+    rewrite lenN_firstn by lia. unfold lenN in Hl. lia.
+  - destruct n as [|m]; [lia|]. cbn [firstn length] in *.
+    destruct (str_kind_facts k Hk) as [H1 [H2 H3]].
+    rewrite step_var by (try exact H1; rewrite Hk; reflexivity). rewrite Hk.
+    destruct (read_len_truncated maxlen fault true len lf pl m (off + 1) Hlf Hpl ltac:(lia))
+      as [[o Ho] | [pl' [o [Ho Hlt]]]]; rewrite Ho.
+    + eexists; reflexivity.
+    + rewrite takeN_short by exact Hlt. eexists; reflexivity.
+  - destruct n as [|m]; [lia|]. cbn [firstn length] in *.
+    destruct (bytes_kind_facts k Hk) as [H1 [H2 H3]].
+    rewrite step_var by (try exact H1; rewrite Hk; apply orb_true_r). rewrite H2.
+    destruct (read_len_truncated maxlen fault false len lf pl m (off + 1) Hlf Hpl ltac:(lia))
+      as [[o Ho] | [pl' [o [Ho Hlt]]]]; rewrite Ho.
+    + eexists; reflexivity.
+    + rewrite takeN_short by exact Hlt. eexists; reflexivity.
+Qed.
+
+Theorem no_silent_truncation maxlen ts t (n : nat) :
+  Forall (wf_enc maxlen) ts -> wf_enc maxlen t -> (0 < n < length (encode_token t))%nat ->
+  exists o, decode maxlen (encode ts ++ firstn n (encode_token t)) = (ts, Fail EEnd o) /\
+            lenN (encode ts) <= o <= lenN (encode ts) + N.of_nat n.
+Proof.
+  intros Hts Ht Hn. unfold decode.
+  rewrite (decode_all_app maxlen false ts Hts) by lia.
+  rewrite decode_all_S.
+  destruct (step_truncated maxlen false t (encode_token t) n (0 + lenN (encode ts))
+              (encode_accepts maxlen t Ht) Hn) as [o Ho].
+  rewrite Ho. exists o. split.
+  - rewrite app_nil_r. reflexivity.
+  - apply step_err_offset in Ho. rewrite lenN_firstn in Ho by lia. lia.
+Qed.
+
+(* ------------------------------------------------------------------ *)
+(* C04: the length limit                                               *)
+(* ------------------------------------------------------------------ *)
+
+Lemma read_len_toolong maxlen fault strk l r off : maxlen < l -> l < 2 ^ 56 ->
+  exists o, read_len maxlen fault strk (len_prefix l ++ r) off = LenErr (toolong strk) o.
+Proof.
+  intros Hm Hl. unfold len_prefix. destruct (l <? 128) eqn:E.
+  - cbn [app]. rewrite read_len_short by lia.
+    assert (Em : (maxlen <? l) = true) by lia. rewrite Em. eexists; reflexivity.
+  - cbv zeta. cbn [app].
+    pose proof (put_uvarint_len l Hl) as Hlen.
+    assert (Hu : lenN (put_uvarint l) <= 8) by (unfold lenN; lia).
+    rewrite read_len_long by (unfold compl8; lia).
+    assert (Ec : compl8 (compl8 (lenN (put_uvarint l))) = lenN (put_uvarint l)) by (unfold compl8; lia).
+    rewrite Ec.
+    assert (E8 : (8 <? lenN (put_uvarint l)) = false) by lia. rewrite E8.
+    rewrite takeN_app. rewrite (read_put_uvarint l Hl).
+    assert (Em : (maxlen <? l) = true) by lia. rewrite Em. eexists; reflexivity.
+Qed.
+
+Theorem limit_boundary_reject maxlen k s rest off :
+  is_str_kind k = true -> lenN s = maxlen + 1 -> lenN s < 2 ^ 56 -> wf_bytes s ->
+  exists o, decode_step maxlen false (encode_token (T k (VStr s)) ++ rest) off = SErr EStrTooLong o.
+Proof.
+  intros Hk Hs Hl _. unfold encode_token. cbn [kind val enc_val app].
+  destruct (str_kind_facts k Hk) as [H1 [H2 H3]].
+  rewrite step_var by (try exact H1; rewrite Hk; reflexivity). rewrite Hk.
+  rewrite <- app_assoc.
+  destruct (read_len_toolong maxlen false true (lenN s) (s ++ rest) (off + 1) ltac:(lia) Hl) as [o Ho].
+  rewrite Ho. exists o. reflexivity.
+Qed.
+
+Theorem limit_boundary_reject_bytes maxlen k s rest off :
+  is_bytes_kind k = true -> lenN s = maxlen + 1 -> lenN s < 2 ^ 56 -> wf_bytes s ->
+  exists o, decode_step maxlen false (encode_token (T k (VBytes s)) ++ rest) off = SErr EBytesTooLong o.
+Proof.
+  intros Hk Hs Hl _. unfold encode_token. cbn [kind val enc_val app].
+  destruct (bytes_kind_facts k Hk) as [H1 [H2 H3]].
+  rewrite step_var by (try exact H1; rewrite Hk; apply orb_true_r). rewrite H2.
+  rewrite <- app_assoc.
+  destruct (read_len_toolong maxlen false false (lenN s) (s ++ rest) (off + 1) ltac:(lia) Hl) as [o Ho].
+  rewrite Ho. exists o. reflexivity.
+Qed.
+
+(* the accept side of the boundary: payload length exactly maxlen *)
+Corollary limit_boundary_accept maxlen k s rest off :
+  is_str_kind k = true -> lenN s = maxlen -> lenN s < 2 ^ 56 -> wf_bytes s ->
+  decode_step maxlen false (encode_token (T k (VStr s)) ++ rest) off =
+  STok (T k (VStr s)) rest (off + lenN (encode_token (T k (VStr s)))).
+Proof.
+  intros Hk Hs Hl Hwf. apply step_exact. unfold wf_enc, wf_token. cbn [kind val].
+  split; [|lia]. apply andb_true_iff. split; [exact Hk|].
+  cbn [wf_val]. unfold wf_bytesb. apply forallb_forall. intros x Hx.
+  unfold wf_bytes in Hwf. rewrite Forall_forall in Hwf. specialize (Hwf x Hx).
+  unfold wf_byte in Hwf. unfold wf_byteb. lia.
+Qed.
+
+Corollary limit_boundary_accept_bytes maxlen k s rest off :
+  is_bytes_kind k = true -> lenN s = maxlen -> lenN s < 2 ^ 56 -> wf_bytes s ->
+  decode_step maxlen false (encode_token (T k (VBytes s)) ++ rest) off =
+  STok (T k (VBytes s)) rest (off + lenN (encode_token (T k (VBytes s)))).
+Proof.
+  intros Hk Hs Hl Hwf. apply step_exact. unfold wf_enc, wf_token. cbn [kind val].
+  split; [|lia]. apply andb_true_iff. split; [exact Hk|].
+  cbn [wf_val]. unfold wf_bytesb. apply forallb_forall. intros x Hx.
+  unfold wf_bytes in Hwf. rewrite Forall_forall in Hwf. specialize (Hwf x Hx).
+  unfold wf_byte in Hwf. unfold wf_byteb. lia.
+Qed.
+
+(* ------------------------------------------------------------------ *)
+(* C15: injected faults, plain decoder                                 *)
+(* ------------------------------------------------------------------ *)
+
+Lemma fault_never_done_gen maxlen f : forall bs off,
+  snd (decode_all f maxlen true bs off) <> Done.
+Proof.
+  induction f as [|f IH]; intros bs off; [cbn; discriminate|].
+  rewrite decode_all_S.
+  destruct (decode_step maxlen true bs off) as [|t r o|e o] eqn:Es.
+  - apply step_end_inv in Es. destruct Es as [_ Hf]. discriminate.
+  - specialize (IH r o). destruct (decode_all f maxlen true r o) as [ts d]. exact IH.
+  - cbn [snd]. discriminate.
+Qed.
+
+Theorem fault_never_done maxlen bs off :
+  snd (decode_all (S (length bs)) maxlen true bs off) <> Done.
+Proof. apply fault_never_done_gen. Qed.
+
+Lemma read_len_fault maxlen strk bs off :
+  match read_len maxlen false strk bs off with
+  | LenOk l r o => read_len maxlen true strk bs off = LenOk l r o
+  | LenErr e o => exists e', read_len maxlen true strk bs off = LenErr e' o
+  end.
+Proof.
+  destruct bs as [|b bs].
+  - rewrite !read_len_nil. eexists; reflexivity.
+  - destruct (b <? 128) eqn:Eb.
+    + rewrite !read_len_short by lia. destruct (maxlen <? b); [eexists; reflexivity | reflexivity].
+    + rewrite !read_len_long by lia.
+      destruct (8 <? compl8 b); [eexists; reflexivity|].
+      destruct (takeN (compl8 b) bs) as [[u r']|]; [|eexists; reflexivity].
+      destruct (read_uvarint u) as [v| | |]; try (eexists; reflexivity).
+      destruct (maxlen <? v); [eexists; reflexivity | reflexivity].
+Qed.
+
+Lemma step_fault maxlen bs off :
+  match decode_step maxlen false bs off with
+  | STok t r o => decode_step maxlen true bs off = STok t r o
+  | _ => exists e o, decode_step maxlen true bs off = SErr e o
+  end.
+Proof.
+  destruct bs as [|k r].
+  - rewrite !step_nil. eexists; eexists; reflexivity.
+  - destruct (fixed_kind k) as [[n mk]|] eqn:Ef.
+    + rewrite !(step_fixed _ _ _ _ _ _ _ Ef).
+      destruct (takeN n r) as [[img r']|]; [reflexivity | eexists; eexists; reflexivity].
+    + destruct (is_str_kind k || is_bytes_kind k) eqn:Esb.
+      * rewrite !step_var by assumption.
+        pose proof (read_len_fault maxlen (is_str_kind k) r (off + 1)) as Hrl.
+        destruct (read_len maxlen false (is_str_kind k) r (off + 1)) as [len r' o|e o].
+        { rewrite Hrl. destruct (takeN len r') as [[pl r'']|]; [reflexivity | eexists; eexists; reflexivity]. }
+        { destruct Hrl as [e' Hrl]. rewrite Hrl. eexists; eexists; reflexivity. }
+      * destruct (is_valueless_kind k) eqn:Ev.
+        { rewrite !step_valueless by exact Ev. reflexivity. }
+        { rewrite !step_bad by assumption. eexists; eexists; reflexivity. }
+Qed.
+
+Lemma fault_tokens_same_gen maxlen f : forall bs off,
+  fst (decode_all f maxlen true bs off) = fst (decode_all f maxlen false bs off).
+Proof.
+  induction f as [|f IH]; intros bs off; [reflexivity|].
+  rewrite !decode_all_S.
+  pose proof (step_fault maxlen bs off) as Hs.
+  destruct (decode_step maxlen false bs off) as [|t r o|e o].
+  - destruct Hs as [e' [o' Hs]]. rewrite Hs. reflexivity.
+  - rewrite Hs. specialize (IH r o).
+    destruct (decode_all f maxlen true r o) as [ts1 d1].
+    destruct (decode_all f maxlen false r o) as [ts2 d2].
+    cbn [fst] in *. rewrite IH. reflexivity.
+  - destruct Hs as [e' [o' Hs]]. rewrite Hs. reflexivity.
+Qed.
+
+Theorem fault_tokens_same maxlen bs off :
+  fst (decode_all (S (length bs)) maxlen true bs off) =
+  fst (decode_all (S (length bs)) maxlen false bs off).
+Proof. apply fault_tokens_same_gen. Qed.
+
+Lemma fail_offset_gen maxlen fault f : forall bs off ts e o,
+  decode_all f maxlen fault bs off = (ts, Fail e o) -> off <= o <= off + lenN bs.
+Proof.
+  induction f as [|f IH]; intros bs off ts e o H; [discriminate|].
+  rewrite decode_all_S in H.
+  destruct (decode_step maxlen fault bs off) as [|t r o1|e1 o1] eqn:Es.
+  - discriminate.
+  - apply step_struct in Es. destruct Es as [piece [Hsplit [_ Ho1]]].
+    destruct (decode_all f maxlen fault r o1) as [ts1 d1] eqn:Ed.
+    injection H as E1 E2. subst ts d1.
+    apply IH in Ed. subst bs. rewrite lenN_app. lia.
+  - injection H as E1 E2 E3. subst. apply step_err_offset in Es. exact Es.
+Qed.
+
+Theorem fail_offset_in_range maxlen fault bs off ts e o :
+  decode_all (S (length bs)) maxlen fault bs off = (ts, Fail e o) -> off <= o <= off + lenN bs.
+Proof. apply fail_offset_gen. Qed.
+
+(* ------------------------------------------------------------------ *)
+(* C15: the failing writer                                             *)
+(* ------------------------------------------------------------------ *)
+
+Lemma write_until_zero ws : write_until 0 ws = (concat ws, false).
+Proof.
+  induction ws as [|w r IH]; cbn [write_until concat].
+  - reflexivity.
+  - cbn [pred]. rewrite IH. reflexivity.
+Qed.
+
+Lemma write_until_SS k w r :
+  write_until (S (S k)) (w :: r) = let '(acc, f) := write_until (S k) r in (w ++ acc, f).
+Proof. reflexivity. Qed.
+
+Theorem write_until_spec k ws :
+  let '(acc, failed) := write_until k ws in
+  (failed = true <-> (1 <= k <= length ws)%nat) /\
+  (failed = true -> acc = concat (firstn (k - 1) ws)) /\
+  (failed = false -> acc = concat ws).
+Proof.
+  revert k. induction ws as [|w r IH]; intros k.
+  - cbn [write_until length]. split; [split; [discriminate|lia]|]. split; [discriminate|reflexivity].
+  - destruct k as [|k].
+    + rewrite write_until_zero. cbn [length].
+      split; [split; [discriminate|lia]|]. split; [discriminate|reflexivity].
+    + destruct k as [|k].
+      * cbn [write_until length]. split; [split; [lia|reflexivity]|].
+        split; [reflexivity|discriminate].
+      * rewrite write_until_SS. specialize (IH (S k)).
+        destruct (write_until (S k) r) as [acc f]. destruct IH as [IH1 [IH2 IH3]].
+        cbn [length]. split; [rewrite IH1; lia|]. split.
+        { intros Hf. rewrite (IH2 Hf).
+          replace (S (S k) - 1)%nat with (S k) by lia. replace (S k - 1)%nat with k by lia.
+          reflexivity. }
+        { intros Hf. rewrite (IH3 Hf). reflexivity. }
+Qed.
+
+Lemma concat_firstn_skipn (n : nat) (ws : list bytes) :
+  concat ws = concat (firstn n ws) ++ concat (skipn n ws).
+Proof. rewrite <- concat_app, firstn_skipn. reflexivity. Qed.
+
+Corollary writer_fault_prefix k ts :
+  exists suffix, encode ts = fst (write_until k (stream_writes ts)) ++ suffix.
+Proof.
+  pose proof (write_until_spec k (stream_writes ts)) as H.
+  destruct (write_until k (stream_writes ts)) as [acc f]. destruct H as [_ [H2 H3]].
+  cbn [fst]. rewrite <- stream_writes_concat. destruct f.
+  - rewrite (H2 eq_refl). eexists. apply concat_firstn_skipn.
+  - rewrite (H3 eq_refl). exists []. rewrite app_nil_r. reflexivity.
+Qed.
+
+(* ------------------------------------------------------------------ *)
+(* the comparison-oriented (segmenting) decoder                        *)
+(* ------------------------------------------------------------------ *)
+
+Definition seg_tok (k : N) (strk : bool) (seg : bytes) : token :=
+  T k (if strk then VStr seg else VBytes seg).
+
+Lemma segments_S f k strk fault step len avail off :
+  segments (S f) k strk fault step len avail off =
+  if len =? 0 then ([], inl (avail, off))
+  else match takeN (N.min step len) avail with
+       | None => ([], inr (end_err fault, off))
+       | Some (seg, r) =>
+           let '(ts, out) := segments f k strk fault (2 * step) (len - N.min step len) r
+                                      (off + N.min step len) in
+           (seg_tok k strk seg :: ts, out)
+       end.
+Proof. reflexivity. Qed.
+
+(* enough input: the segments are exactly the payload *)
+Lemma segments_ok k strk fault f : forall step pl r off,
+  1 <= step -> (length pl < f)%nat ->
+  exists segs, segments f k strk fault step (lenN pl) (pl ++ r) off =
+               (map (seg_tok k strk) segs, inl (r, off + lenN pl)) /\ concat segs = pl.
+Proof.
+  induction f as [|f IH]; intros step pl r off Hstep Hf; [lia|].
+  rewrite segments_S. destruct (lenN pl =? 0) eqn:E0.
+  - apply N.eqb_eq in E0. destruct pl as [|x pl]; [|rewrite lenN_cons in E0; lia].
+    exists []. cbn [map concat app]. rewrite lenN_nil, N.add_0_r. split; reflexivity.
+  - apply N.eqb_neq in E0.
+    remember (N.min step (lenN pl)) as l eqn:El.
+    assert (Hl : 1 <= l <= lenN pl) by lia.
+    assert (Hsplit : pl = firstn (N.to_nat l) pl ++ skipn (N.to_nat l) pl)
+      by (symmetry; apply firstn_skipn).
+    remember (firstn (N.to_nat l) pl) as s1 eqn:Es1.
+    remember (skipn (N.to_nat l) pl) as p2 eqn:Ep2.
+    assert (Hs1 : lenN s1 = l).
+    { subst s1. unfold lenN in *. rewrite firstn_length_le by lia. lia. }
+    assert (Hp2 : lenN pl = l + lenN p2).
+    { rewrite Hsplit at 1. rewrite lenN_app, Hs1. reflexivity. }
+    assert (Ht : takeN l (pl ++ r) = Some (s1, p2 ++ r)).
+    { rewrite Hsplit, <- app_assoc. apply takeN_app'. exact Hs1. }
+    rewrite Ht.
+    replace (lenN pl - l) with (lenN p2) by lia.
+    destruct (IH (2 * step) p2 r (off + l) ltac:(lia) ltac:(unfold lenN in *; lia)) as [segs [Hseg Hcat]].
+    rewrite Hseg. exists (s1 :: segs). split.
+    + cbn [map]. f_equal. f_equal. f_equal. lia.
+    + cbn [concat]. rewrite Hcat. symmetry. exact Hsplit.
+Qed.
+
+(* too little input: the same end-of-input class, at an offset inside the input *)
+Lemma segments_fail k strk fault f : forall step len avail off,
+  1 <= step -> lenN avail < len -> (length avail < f)%nat ->
+  exists ts o, segments f k strk fault step len avail off = (ts, inr (end_err fault, o)).
+Proof.
+  induction f as [|f IH]; intros step len avail off Hstep Hlen Hf; [lia|].
+  rewrite segments_S.
+  assert (E0 : (len =? 0) = false) by lia. rewrite E0.
+  remember (N.min step len) as l eqn:El.
+  destruct (takeN l avail) as [[seg r]|] eqn:Et.
+  - apply takeN_some in Et. destruct Et as [Hsplit Hseg].
+    assert (Hav : lenN avail = l + lenN r) by (rewrite Hsplit, lenN_app, Hseg; reflexivity).
+    destruct (IH (2 * step) (len - l) r (off + l) ltac:(lia) ltac:(lia) ltac:(unfold lenN in *; lia))
+      as [ts [o Hs]].
+    rewrite Hs. eexists; eexists; reflexivity.
+  - eexists; eexists; reflexivity.
+Qed.
+
+(* structure of any outcome, for every fuel *)
+Lemma segments_struct k strk fault f : forall step len avail off ts out,
+  segments f k strk fault step len avail off = (ts, out) ->
+  match out with
+  | inl (r, o) => exists p, avail = p ++ r /\ o = off + lenN p
+  | inr (e, o) => off <= o <= off + lenN avail
+  end.
+Proof.
+  induction f as [|f IH]; intros step len avail off ts out H.
+  - cbn [segments] in H. injection H as E1 E2. subst. lia.
+  - rewrite segments_S in H. destruct (len =? 0).
+    + injection H as E1 E2. subst. exists []. split; [reflexivity|]. rewrite lenN_nil. lia.
+    + destruct (takeN (N.min step len) avail) as [[seg r]|] eqn:Et.
+      * apply takeN_some in Et. destruct Et as [Hsplit Hseg].
+        destruct (segments f k strk fault (2 * step) (len - N.min step len) r (off + N.min step len))
+          as [ts1 out1] eqn:Es.
+        injection H as E1 E2. subst ts out.
+        apply IH in Es. destruct out1 as [[r1 o1]|[e1 o1]].
+        { destruct Es as [p [Hp Ho]]. exists (seg ++ p). split.
+          - rewrite Hsplit, Hp, app_assoc. reflexivity.
+          - rewrite lenN_app, Hseg. lia. }
+        { rewrite Hsplit, lenN_app, Hseg. lia. }
+      * injection H as E1 E2. subst. lia.
+Qed.
+
+Lemma cmp_step_nil maxlen fault off :
+  decode_cmp_step maxlen fault [] off = if fault then CErr [] EFault off else CEnd.
+Proof. reflexivity. Qed.
+
+Lemma cmp_step_seg maxlen fault k r off : (k =? KString) || (k =? KBytes) = true ->
+  decode_cmp_step maxlen fault (k :: r) off =
+  match read_len maxlen fault (k =? KString) r (off + 1) with
+  | LenErr e o => CErr [] e o
+  | LenOk len r' o =>
+      match segments (S (length r')) k (k =? KString) fault init_step len r' o with
+      | (ts, inl (r'', o')) =>
+          CToks (T (if k =? KString then KStringBegin else KBytesBegin) VNone
+                   :: ts ++ [T (if k =? KString then KStringEnd else KBytesEnd) VNone]) r'' o'
+      | (ts, inr (e, o')) =>
+          CErr (T (if k =? KString then KStringBegin else KBytesBegin) VNone :: ts) e o'
+      end
+  end.
+Proof. intros H. unfold decode_cmp_step. rewrite H. reflexivity. Qed.
+
+Lemma cmp_step_other maxlen fault k r off : (k =? KString) || (k =? KBytes) = false ->
+  decode_cmp_step maxlen fault (k :: r) off =
+  match decode_step maxlen fault (k :: r) off with
+  | SEnd => CEnd
+  | SErr e o => CErr [] e o
+  | STok t r' o => CToks [t] r' o
+  end.
+Proof. intros H. unfold decode_cmp_step. rewrite H. reflexivity. Qed.
+
+Lemma decode_cmp_all_S f maxlen fault bs off :
+  decode_cmp_all (S f) maxlen fault bs off =
+  match decode_cmp_step maxlen fault bs off with
+  | CEnd => ([], Done)
+  | CErr ts e o => (ts, Fail e o)
+  | CToks ts r o => let '(more, e) := decode_cmp_all f maxlen fault r o in (ts ++ more, e)
+  end.
+Proof. reflexivity. Qed.
+
+Lemma cmp_step_struct maxlen fault bs off ts rest off' :
+  decode_cmp_step maxlen fault bs off = CToks ts rest off' ->
+  exists piece, bs = piece ++ rest /\ piece <> [] /\ off' = off + lenN piece.
+Proof.
+  intros H. destruct bs as [|k r].
+  - rewrite cmp_step_nil in H. destruct fault; discriminate.
+  - destruct ((k =? KString) || (k =? KBytes)) eqn:E.
+    + rewrite cmp_step_seg in H by exact E.
+      destruct (read_len maxlen fault (k =? KString) r (off + 1)) as [len r' o|e o] eqn:El; [|discriminate].
+      apply read_len_struct in El. destruct El as [lf [Hsplit [Ho _]]].
+      destruct (segments (S (length r')) k (k =? KString) fault init_step len r' o) as [sts out] eqn:Es.
+      apply segments_struct in Es.
+      destruct out as [[r'' o']|[e o']]; [|discriminate].
+      destruct Es as [p [Hp Ho']]. injection H as E1 E2 E3. subst ts rest off'.
+      exists (k :: lf ++ p). split.
+      * cbn [app]. rewrite <- app_assoc, <- Hp, <- Hsplit. reflexivity.
+      * split; [discriminate|]. rewrite lenN_cons, lenN_app. lia.
+    + rewrite cmp_step_other in H by exact E.
+      destruct (decode_step maxlen fault (k :: r) off) as [|t r' o|e o] eqn:Es; try discriminate.
+      injection H as E1 E2 E3. subst ts rest off'.
+      apply step_struct in Es. exact Es.
+Qed.
+
+Lemma cmp_step_err_offset maxlen fault bs off ts e o :
+  decode_cmp_step maxlen fault bs off = CErr ts e o -> off <= o <= off + lenN bs.
+Proof.
+  intros H. destruct bs as [|k r].
+  - rewrite cmp_step_nil in H. destruct fault; [|discriminate].
+    injection H as E1 E2 E3. subst. rewrite lenN_nil. lia.
+  - destruct ((k =? KString) || (k =? KBytes)) eqn:E.
+    + rewrite cmp_step_seg in H by exact E. rewrite lenN_cons.
+      destruct (read_len maxlen fault (k =? KString) r (off + 1)) as [len r' o1|e1 o1] eqn:El.
+      * apply read_len_struct in El. destruct El as [lf [Hsplit [Ho _]]].
+        destruct (segments (S (length r')) k (k =? KString) fault init_step len r' o1) as [sts out] eqn:Es.
+        apply segments_struct in Es.
+        destruct out as [[r'' o']|[e2 o']]; [discriminate|].
+        injection H as E1 E2 E3. subst ts e o. rewrite Hsplit, lenN_app. lia.
+      * apply read_len_err_offset in El. injection H as E1 E2 E3. subst. lia.
+    + rewrite cmp_step_other in H by exact E.
+      destruct (decode_step maxlen fault (k :: r) off) as [|t r' o1|e1 o1] eqn:Es; try discriminate.
+      injection H as E1 E2 E3. subst. apply step_err_offset in Es. exact Es.
+Qed.
+
+Lemma cmp_step_end_inv maxlen fault bs off :
+  decode_cmp_step maxlen fault bs off = CEnd -> bs = [] /\ fault = false.
+Proof.
+  intros H. destruct bs as [|k r].
+  - rewrite cmp_step_nil in H. destruct fault; [discriminate|]. split; reflexivity.
+  - exfalso. destruct ((k =? KString) || (k =? KBytes)) eqn:E.
+    + rewrite cmp_step_seg in H by exact E.
+      destruct (read_len maxlen fault (k =? KString) r (off + 1)) as [len r' o|e o]; [|discriminate].
+      destruct (segments (S (length r')) k (k =? KString) fault init_step len r' o) as [sts out].
+      destruct out as [[r'' o']|[e o']]; discriminate.
+    + rewrite cmp_step_other in H by exact E.
+      destruct (decode_step maxlen fault (k :: r) off) as [|t r' o|e o] eqn:Es; try discriminate.
+      apply step_end_inv in Es. destruct Es as [Hnil _]. discriminate.
+Qed.
+
+Lemma decode_cmp_all_no_fuel maxlen fault f : forall bs off,
+  (length bs < f)%nat -> snd (decode_cmp_all f maxlen fault bs off) <> DOutOfFuel.
+Proof.
+  induction f as [|f IH]; intros bs off Hf; [lia|]. rewrite decode_cmp_all_S.
+  destruct (decode_cmp_step maxlen fault bs off) as [|ts r o|ts e o] eqn:Es; cbn [snd]; try discriminate.
+  apply cmp_step_struct in Es. destruct Es as [piece [Hsplit [Hne _]]].
+  specialize (IH r o).
+  destruct (decode_cmp_all f maxlen fault r o) as [more d]. cbn [snd] in *. apply IH.
+  subst bs. rewrite app_length in Hf. destruct piece as [|x p]; [congruence|]. cbn [length] in Hf. lia.
+Qed.
+
+Theorem decode_cmp_total maxlen fault bs off :
+  snd (decode_cmp_all (S (length bs)) maxlen fault bs off) <> DOutOfFuel.
+Proof. apply decode_cmp_all_no_fuel. lia. Qed.
+
+Lemma fault_never_done_cmp_gen maxlen f : forall bs off,
+  snd (decode_cmp_all f maxlen true bs off) <> Done.
+Proof.
+  induction f as [|f IH]; intros bs off; [cbn; discriminate|].
+  rewrite decode_cmp_all_S.
+  destruct (decode_cmp_step maxlen true bs off) as [|ts r o|ts e o] eqn:Es.
+  - apply cmp_step_end_inv in Es. destruct Es as [_ Hf]. discriminate.
+  - specialize (IH r o). destruct (decode_cmp_all f maxlen true r o) as [more d]. exact IH.
+  - cbn [snd]. discriminate.
+Qed.
+
+Theorem fault_never_done_cmp maxlen bs off :
+  snd (decode_cmp_all (S (length bs)) maxlen true bs off) <> Done.
+Proof. apply fault_never_done_cmp_gen. Qed.
+
+Lemma fail_offset_cmp_gen maxlen fault f : forall bs off ts e o,
+  decode_cmp_all f maxlen fault bs off = (ts, Fail e o) -> off <= o <= off + lenN bs.
+Proof.
+  induction f as [|f IH]; intros bs off ts e o H; [discriminate|].
+  rewrite decode_cmp_all_S in H.
+  destruct (decode_cmp_step maxlen fault bs off) as [|ts1 r o1|ts1 e1 o1] eqn:Es.
+  - discriminate.
+  - apply cmp_step_struct in Es. destruct Es as [piece [Hsplit [_ Ho1]]].
+    destruct (decode_cmp_all f maxlen fault r o1) as [more d1] eqn:Ed.
+    injection H as E1 E2. subst ts d1.
+    apply IH in Ed. subst bs. rewrite lenN_app. lia.
+  - injection H as E1 E2 E3. subst. apply cmp_step_err_offset in Es. exact Es.
+Qed.
+
+Theorem fail_offset_in_range_cmp maxlen fault bs off ts e o :
+  decode_cmp_all (S (length bs)) maxlen fault bs off = (ts, Fail e o) -> off <= o <= off + lenN bs.
+Proof. apply fail_offset_cmp_gen. Qed.
+
+(* ---- the two decoders agree ---- *)
+
+Lemma step_tok_kind maxlen fault bs off t rest off' :
+  decode_step maxlen fault bs off = STok t rest off' ->
+  kind t <> KStringBegin /\ kind t <> KBytesBegin.
+Proof.
+  intros H. destruct bs as [|k r].
+  - rewrite step_nil in H. destruct fault; discriminate.
+  - assert (Hk : kind t = k).
+    { destruct (fixed_kind k) as [[n mk]|] eqn:Ef.
+      - rewrite (step_fixed _ _ _ _ _ _ _ Ef) in H.
+        destruct (takeN n r) as [[img r']|]; [|discriminate].
+        injection H as E1 E2 E3. subst t. reflexivity.
+      - destruct (is_str_kind k || is_bytes_kind k) eqn:Esb.
+        + rewrite step_var in H by assumption.
+          destruct (read_len maxlen fault (is_str_kind k) r (off + 1)) as [len r' o|e o]; [|discriminate].
+          destruct (takeN len r') as [[pl r'']|]; [|discriminate].
+          injection H as E1 E2 E3. subst t. reflexivity.
+        + destruct (is_valueless_kind k) eqn:Ev.
+          * rewrite step_valueless in H by exact Ev. injection H as E1 E2 E3. subst t. reflexivity.
+          * rewrite step_bad in H by assumption. discriminate. }
+    rewrite Hk. split; intros ->.
+    + rewrite step_bad in H by reflexivity. discriminate.
+    + rewrite step_bad in H by reflexivity. discriminate.
+Qed.
+
+Lemma deseg_plain t more : kind t <> KStringBegin -> kind t <> KBytesBegin ->
+  desegment (t :: more) = t :: desegment more.
+Proof.
+  intros H1 H2. unfold desegment. cbn [deseg].
+  apply N.eqb_neq in H1. apply N.eqb_neq in H2. rewrite H1, H2. reflexivity.
+Qed.
+
+Lemma deseg_segs_str rest : forall segs a,
+  deseg (Some (true, a)) (map (seg_tok KString true) segs ++ T KStringEnd VNone :: rest) =
+  T KString (VStr (a ++ concat segs)) :: deseg None rest.
+Proof.
+  induction segs as [|s segs IH]; intros a.
+  - cbn [map app deseg kind concat]. change (KStringEnd =? KStringEnd) with true. cbv iota.
+    rewrite app_nil_r. reflexivity.
+  - cbn [map app deseg].
+    change (kind (seg_tok KString true s)) with KString.
+    change (val (seg_tok KString true s)) with (VStr s).
+    change (KString =? KStringEnd) with false. cbv iota.
+    rewrite IH. cbn [concat]. rewrite app_assoc. reflexivity.
+Qed.
+
+Lemma deseg_segs_bytes rest : forall segs a,
+  deseg (Some (false, a)) (map (seg_tok KBytes false) segs ++ T KBytesEnd VNone :: rest) =
+  T KBytes (VBytes (a ++ concat segs)) :: deseg None rest.
+Proof.
+  induction segs as [|s segs IH]; intros a.
+  - cbn [map app deseg kind concat]. change (KBytesEnd =? KBytesEnd) with true. cbv iota.
+    rewrite app_nil_r. reflexivity.
+  - cbn [map app deseg].
+    change (kind (seg_tok KBytes false s)) with KBytes.
+    change (val (seg_tok KBytes false s)) with (VBytes s).
+    change (KBytes =? KBytesEnd) with false. cbv iota.
+    rewrite IH. cbn [concat]. rewrite app_assoc. reflexivity.
+Qed.
+
+Definition step_rel (s : dstep) (c : cstep) : Prop :=
+  match s, c with
+  | SEnd, CEnd => True
+  | SErr e _, CErr _ e' _ => e = e'
+  | STok t r o, CToks ts r' o' =>
+      r = r' /\ o = o' /\ forall more, desegment (ts ++ more) = t :: desegment more
+  | _, _ => False
+  end.
+
+(* the segmenting branch, for a kind whose length field is read with flag strk *)
+Lemma cmp_step_rel_seg maxlen fault k r off :
+  (k = KString \/ k = KBytes) ->
+  step_rel (decode_step maxlen fault (k :: r) off) (decode_cmp_step maxlen fault (k :: r) off).
+Proof.
+  intros Hk.
+  assert (Hseg : (k =? KString) || (k =? KBytes) = true) by (destruct Hk; subst; reflexivity).
+  assert (Hfix : fixed_kind k = None) by (destruct Hk; subst; reflexivity).
+  assert (Hsb : is_str_kind k || is_bytes_kind k = true) by (destruct Hk; subst; reflexivity).
+  assert (Hstr : is_str_kind k = (k =? KString)) by (destruct Hk; subst; reflexivity).
+  rewrite step_var by assumption. rewrite cmp_step_seg by exact Hseg. rewrite Hstr.
+  destruct (read_len maxlen fault (k =? KString) r (off + 1)) as [len r' o|e o] eqn:El;
+    [|cbn [step_rel]; reflexivity].
+  destruct (takeN len r') as [[pl r'']|] eqn:Et.
+  - apply takeN_some in Et. destruct Et as [Hsplit Hpl].
+    assert (Hfuel : (length pl < S (length r'))%nat) by (subst r'; rewrite app_length; lia).
+    destruct (segments_ok k (k =? KString) fault (S (length r')) init_step pl r'' o
+                ltac:(unfold init_step; lia) Hfuel) as [segs [Hs Hcat]].
+    subst r' len. rewrite Hs. cbn [step_rel].
+    split; [reflexivity|]. split; [reflexivity|]. intros more.
+    destruct Hk as [-> | ->].
+    + change (KString =? KString) with true. cbv iota.
+      unfold desegment. cbn [app deseg kind].
+      change (KStringBegin =? KStringBegin) with true. cbv iota.
+      rewrite <- app_assoc. cbn [app]. rewrite deseg_segs_str. rewrite Hcat. reflexivity.
+    + change (KBytes =? KString) with false. cbv iota.
+      unfold desegment. cbn [app deseg kind].
+      change (KBytesBegin =? KStringBegin) with false.
+      change (KBytesBegin =? KBytesBegin) with true. cbv iota.
+      rewrite <- app_assoc. cbn [app]. rewrite deseg_segs_bytes. rewrite Hcat. reflexivity.
+  - apply takeN_none in Et.
+    destruct (segments_fail k (k =? KString) fault (S (length r')) init_step len r' o
+                ltac:(unfold init_step; lia) Et ltac:(lia)) as [sts [o' Hs]].
+    rewrite Hs. cbn [step_rel]. reflexivity.
+Qed.
+
+Lemma cmp_step_rel maxlen fault bs off :
+  step_rel (decode_step maxlen fault bs off) (decode_cmp_step maxlen fault bs off).
+Proof.
+  destruct bs as [|k r].
+  - rewrite step_nil, cmp_step_nil. destruct fault; cbn [step_rel]; auto.
+  - destruct ((k =? KString) || (k =? KBytes)) eqn:E.
+    + apply cmp_step_rel_seg. apply orb_true_iff in E.
+      destruct E as [E|E]; apply N.eqb_eq in E; auto.
+    + rewrite cmp_step_other by exact E.
+      destruct (decode_step maxlen fault (k :: r) off) as [|t r' o|e o] eqn:Es; cbn [step_rel]; auto.
+      split; [reflexivity|]. split; [reflexivity|]. intros more. cbn [app].
+      apply step_tok_kind in Es. destruct Es as [H1 H2]. apply deseg_plain; assumption.
+Qed.
+
+Definition all_rel (a b : list token * dend) : Prop :=
+  match snd a, snd b with
+  | Done, Done => desegment (fst b) = fst a
+  | Fail e1 _, Fail e2 _ => e1 = e2
+  | _, _ => False
+  end.
+
+Lemma cmp_rel maxlen fault f1 : forall f2 bs off,
+  (length bs < f1)%nat -> (length bs < f2)%nat ->
+  all_rel (decode_all f1 maxlen fault bs off) (decode_cmp_all f2 maxlen fault bs off).
+Proof.
+  induction f1 as [|f1 IH]; intros f2 bs off H1 H2; [lia|].
+  destruct f2 as [|f2]; [lia|].
+  rewrite decode_all_S, decode_cmp_all_S.
+  pose proof (cmp_step_rel maxlen fault bs off) as Hrel.
+  destruct (decode_step maxlen fault bs off) as [|t r o|e o] eqn:Es;
+    destruct (decode_cmp_step maxlen fault bs off) as [|ts r' o'|ts e' o'] eqn:Ec;
+    cbn [step_rel] in Hrel; try contradiction.
+  - unfold all_rel. cbn [fst snd]. reflexivity.
+  - destruct Hrel as [Hr [Ho Hdes]]. subst r' o'.
+    apply step_shrinks in Es.
+    specialize (IH f2 r o ltac:(lia) ltac:(lia)).
+    destruct (decode_all f1 maxlen fault r o) as [ts1 d1].
+    destruct (decode_cmp_all f2 maxlen fault r o) as [ts2 d2].
+    unfold all_rel in *. cbn [fst snd] in *.
+    destruct d1 as [|e1 o1|]; destruct d2 as [|e2 o2|]; try contradiction.
+    + rewrite Hdes, IH. reflexivity.
+    + exact IH.
+  - unfold all_rel. cbn [fst snd]. exact Hrel.
+Qed.
+
+Lemma cmp_rel_top maxlen bs : all_rel (decode maxlen bs) (decode_cmp maxlen bs).
+Proof. unfold decode, decode_cmp. apply cmp_rel; lia. Qed.
+
+Theorem cmp_same_language maxlen bs : wf_bytes bs ->
+  (snd (decode maxlen bs) = Done <-> snd (decode_cmp maxlen bs) = Done).
+Proof.
+  intros _. pose proof (cmp_rel_top maxlen bs) as H. unfold all_rel in H.
+  destruct (snd (decode maxlen bs)) as [|e1 o1|]; destruct (snd (decode_cmp maxlen bs)) as [|e2 o2|];
+    try contradiction; split; intros; (reflexivity || discriminate).
+Qed.
+
+Theorem cmp_same_class maxlen bs : wf_bytes bs ->
+  match snd (decode maxlen bs), snd (decode_cmp maxlen bs) with
+  | Done, Done => True
+  | Fail e1 _, Fail e2 _ => e1 = e2
+  | _, _ => False
+  end.
+Proof.
+  intros _. pose proof (cmp_rel_top maxlen bs) as H. unfold all_rel in H.
+  destruct (snd (decode maxlen bs)) as [|e1 o1|]; destruct (snd (decode_cmp maxlen bs)) as [|e2 o2|];
+    try contradiction; auto.
+Qed.
+
+Theorem cmp_desegment maxlen bs : wf_bytes bs -> snd (decode maxlen bs) = Done ->
+  desegment (fst (decode_cmp maxlen bs)) = fst (decode maxlen bs).
+Proof.
+  intros _ Hd. pose proof (cmp_rel_top maxlen bs) as H. unfold all_rel in H.
+  rewrite Hd in H. destruct (snd (decode_cmp maxlen bs)) as [|e2 o2|]; try contradiction. exact H.
+Qed.
+
+(* ------------------------------------------------------------------ *)
+(* the hypotheses are satisfiable: concrete instances                  *)
+(* ------------------------------------------------------------------ *)
+
+Definition ex_ts : list token :=
+  [T KInt (VI WNat (-5)); T KString (VStr [104; 105]); T KArray VNone;
+   T KBytes (VBytes (rep 200 7)); T KBool (VBool true); T KUint16 (VU W16 513); T KArrayEnd VNone].
+
+Example ex_wf : Forall (wf_enc default_maxlen) ex_ts.
+Proof. unfold ex_ts. repeat constructor; vm_compute; discriminate. Qed.
+
+Example ex_wf_bytes : wf_bytes (encode ex_ts).
+Proof. apply wf_bytesb_true. vm_compute. reflexivity. Qed.
+
+Example ex_step_exact :
+  decode_step default_maxlen false (encode_token (T KBytes (VBytes (rep 200 7))) ++ [1; 2]) 10 =
+  STok (T KBytes (VBytes (rep 200 7))) [1; 2] (10 + 204).
+Proof.
+  apply (step_exact default_maxlen false (T KBytes (VBytes (rep 200 7))) [1; 2] 10).
+  repeat constructor; vm_compute; discriminate.
+Qed.
+
+Example ex_decode_encode : decode default_maxlen (encode ex_ts) = (ex_ts, Done).
+Proof. exact (decode_encode default_maxlen ex_ts ex_wf). Qed.
+
+Example ex_encoded_len : encoded_len ex_ts = 224.
+Proof. rewrite encoded_len_correct. vm_compute. reflexivity. Qed.
+
+Example ex_layout : layout_token (T KUint16 (VU W16 513)) [130; 1; 2].
+Proof. apply (encode_layout (T KUint16 (VU W16 513))); [reflexivity | exact I]. Qed.
+
+Example ex_layout_long : layout_token (T KBytes (VBytes (rep 200 7))) (55 :: 253 :: 200 :: 1 :: rep 200 7).
+Proof.
+  apply (encode_layout (T KBytes (VBytes (rep 200 7)))); [reflexivity | vm_compute; reflexivity].
+Qed.
+
+(* a non-canonical but accepted encoding: over-long length varint [130; 0] = 2 *)
+Example ex_noncanonical :
+  exists piece, [50; 253; 130; 0; 1; 2; 30] = piece ++ [30] /\ 6 = 0 + lenN piece /\
+                accepts 100 (T KString (VStr [1; 2])) piece.
+Proof.
+  apply (step_sound 100 false [50; 253; 130; 0; 1; 2; 30] 0).
+  - apply wf_bytesb_true. vm_compute. reflexivity.
+  - vm_compute. reflexivity.
+Qed.
+
+Example ex_truncation :
+  exists o, decode default_maxlen (encode ex_ts ++ firstn 2 (encode_token (T KString (VStr [104; 105]))))
+            = (ex_ts, Fail EEnd o) /\ lenN (encode ex_ts) <= o <= lenN (encode ex_ts) + 2.
+Proof.
+  apply (no_silent_truncation default_maxlen ex_ts (T KString (VStr [104; 105])) 2 ex_wf).
+  - repeat constructor; vm_compute; discriminate.
+  - vm_compute. lia.
+Qed.
+
+Example ex_limit :
+  exists o, decode_step 3 false (encode_token (T KString (VStr [1; 2; 3; 4])) ++ [30]) 0 = SErr EStrTooLong o.
+Proof.
+  apply limit_boundary_reject; try reflexivity.
+  apply wf_bytesb_true. reflexivity.
+Qed.
+
+Example ex_cmp : desegment (fst (decode_cmp default_maxlen (encode ex_ts))) = ex_ts.
+Proof.
+  rewrite (cmp_desegment default_maxlen (encode ex_ts) ex_wf_bytes); rewrite ex_decode_encode; reflexivity.
+Qed.
+
+Example ex_cmp_segments :
+  map kind (fst (decode_cmp default_maxlen (encode [T KBytes (VBytes (rep 30 7))]))) =
+  [KBytesBegin; KBytes; KBytes; KBytes; KBytesEnd].
+Proof. vm_compute. reflexivity. Qed.
+
+Example ex_fault :
+  decode_all (S (length (encode ex_ts))) default_maxlen true (encode ex_ts) 0 =
+  (ex_ts, Fail EFault 224).
+Proof. vm_compute. reflexivity. Qed.
+
+Example ex_write_until :
+  write_until 4 (stream_writes ex_ts) = (firstn 10 (encode ex_ts), true).
+Proof. vm_compute. reflexivity. Qed.
+
+Print Assumptions step_exact.
+Print Assumptions decode_encode.
+Print Assumptions encoded_len_correct.
+Print Assumptions writes_concat.
+Print Assumptions stream_writes_concat.
+Print Assumptions encode_layout.
+Print Assumptions encode_layout_stream.
+Print Assumptions layout_token_unique.
+Print Assumptions decode_total.
+Print Assumptions decode_cmp_total.
+Print Assumptions step_sound.
+Print Assumptions step_complete.
+Print Assumptions accepts_prefix_free.
+Print Assumptions decode_exact.
+Print Assumptions step_err_offset.
+Print Assumptions step_truncated.
+Print Assumptions no_silent_truncation.
+Print Assumptions limit_boundary_reject.
+Print Assumptions limit_boundary_reject_bytes.
+Print Assumptions limit_boundary_accept.
+Print Assumptions limit_boundary_accept_bytes.
+Print Assumptions cmp_same_language.
+Print Assumptions cmp_same_class.
+Print Assumptions cmp_desegment.
+Print Assumptions fault_never_done.
+Print Assumptions fault_never_done_cmp.
+Print Assumptions fault_tokens_same.
+Print Assumptions fail_offset_in_range.
+Print Assumptions fail_offset_in_range_cmp.
+Print Assumptions write_until_spec.
+Print Assumptions writer_fault_prefix.
+Print Assumptions encode_accepts.
